@@ -25,6 +25,8 @@ prefix before "!" and strips exactly the prefix length into lists 2 / 1 / 0, and
 8 truth combinations of (double-exception, exception, plain) matches: "!!" wins, else an exception hides the file, else
 the plain match decides. Globster.identify classifies RE:/slash patterns as fullpath, "*." patterns as extension, the rest
 as basename, in that order.
+last-component-only: the extension and basename prefixes contain the negative lookahead (?!.*/) (parsed with re._parser)
+that confines those patterns to the last path component.
 Does not decide: glob -> regex translation semantics for arbitrary patterns.
 """
 REPLACERS = ["_sub_named", "_sub_re", "_sub_fullpath", "_sub_basename"]
@@ -91,6 +93,26 @@ def run(ctx):
         kinds[const_value(k)] = d
         pref = const_value(d["prefix"])
         ctx.check("no-capturing-prefix", f"{GF}:Globster.pattern_info[{const_value(k)!r}]", isinstance(pref, str) and groups_in_regex(pref) == 0, f"prefix {pref!r} has no capturing group", construct=str(pref))
+    # extension and basename patterns are matched against the last path component: their translators' wildcards can
+    # match "/" themselves, so it is the prefix's negative lookahead "no further slash" — (?!.*/) — that confines them
+    import re as _re
+
+    def _has_no_more_slash_assertion(pref):
+        try:
+            parsed = _re._parser.parse(pref)
+        except Exception:
+            return False
+        for op, av in parsed:
+            if str(op) == "ASSERT_NOT" and av[0] == 1:
+                items = list(av[1])
+                if len(items) == 2 and str(items[0][0]) == "MAX_REPEAT" and [str(x[0]) for x in items[0][1][2]] == ["ANY"] and str(items[1][0]) == "LITERAL" and items[1][1] == ord("/"):
+                    return True
+        return False
+
+    for kind_ in ("extension", "basename"):
+        if kind_ in kinds:
+            pref = const_value(kinds[kind_]["prefix"])
+            ctx.check("last-component-only", f"{GF}:Globster.pattern_info[{kind_!r}]", isinstance(pref, str) and _has_no_more_slash_assertion(pref), f"the {kind_} prefix {pref!r} asserts that no '/' follows (the pattern is confined to the last path component)", construct=str(pref), message=f"the {kind_} prefix {pref!r} no longer contains the (?!.*/) assertion: the translated wildcards match '/' as well, so e.g. '*.~*' matches 'old.~1~/README' — files inside a directory whose name merely looks like the pattern are ignored")
     ctx.check("pattern-kinds", f"{GF}:Globster.pattern_info", set(kinds) == {"extension", "basename", "fullpath"} and norm(kinds["extension"]["translator"]) == "_sub_extension" and norm(kinds["basename"]["translator"]) == "_sub_basename" and norm(kinds["fullpath"]["translator"]) == "_sub_fullpath", "three pattern kinds with their translators")
     # _add_patterns
     from ..astutil import bind_roles, canonicalise
@@ -171,6 +193,7 @@ def run(ctx):
 
 
 MUTANTS = [
+    Mutant("extension prefix loses the no-more-slash assertion", GF, "            \"prefix\": r\"(?:.*/)?(?!.*/)(?:.*\\.)\",", "            \"prefix\": r\"(?:.*\\.)\",", expect="last-component-only"),
     Mutant("capturing replacement for **/", GF, "r\"(?:.*/)?\")  # **/ after ^ or /", "r\"(.*/)?\")  # **/ after ^ or /", expect="no-capturing-template"),
     Mutant("batch slices disagree", GF, "            grouped_rules = [f\"({translator(pat)})\" for pat in patterns[:99]]", "            grouped_rules = [f\"({translator(pat)})\" for pat in patterns[:98]]", expect="batch-constant"),
     Mutant("'!' tested before '!!'", GF, "            if p.startswith(\"!!\"):\n                ignores[2].append(p[2:])\n            elif p.startswith(\"!\"):\n                ignores[1].append(p[1:])", "            if p.startswith(\"!\"):\n                ignores[1].append(p[1:])\n            elif p.startswith(\"!!\"):\n                ignores[2].append(p[2:])", expect="exception-prefixes"),
